@@ -217,6 +217,21 @@ class SymSeq:
         return self.contains(I, item)
 
 
+class CondList:
+    """list of (element, z3 Bool selected?) built by a filtering comprehension over a concrete-length iterable"""
+
+    def __init__(self, items):
+        self.items = items
+
+    def truth(self, I):
+        import z3
+        return z3.Or(*[t for _x, t in self.items]) if self.items else False
+
+    def sym_len(self, I):
+        import z3
+        return SV(z3.Sum(*[z3.If(t, 1, 0) for _x, t in self.items]) if self.items else z3.IntVal(0), "int")
+
+
 class Ev:
     """Effect-trace event."""
     __slots__ = ("name", "args", "kwargs", "ret")
